@@ -1,11 +1,18 @@
 #!/bin/bash
-# try_seed.sh <seed-id> <property> [tier]: apply a seeded change, run the check, undo it.
-# By default the change is applied to /repo itself; with SEED_REPO=<scratch worktree of /repo> it is applied there and the
-# check is pointed at that tree (CV_REPO), so that /repo stays untouched while a long matrix runs.
+# try_seed.sh <seed-id> <property> [tier]: apply a seeded change in a scratch worktree of /repo (SEED_REPO, or a fresh one that is
+# removed afterwards), point the check at it with CV_REPO, run the check, undo the change.  /repo itself is never touched.
 id="$1"; pid="$2"; tier="${3:-quick}"
-repo="${SEED_REPO:-/repo}"
-git -C "$repo" apply /verif/seeded/$id/patch.diff || exit 2
+own=""
+if [ -z "${SEED_REPO:-}" ]; then
+  SEED_REPO=$(mktemp -d /tmp/tryseed-XXXXXX); rmdir "$SEED_REPO"
+  git -C /repo worktree add -q --detach "$SEED_REPO" HEAD || exit 2
+  own=1
+fi
+repo="$SEED_REPO"
+git -C "$repo" apply /verif/seeded/$id/patch.diff || { [ -n "$own" ] && git -C /repo worktree remove --force "$repo"; exit 2; }
 cd /verif && CV_REPO="$repo" timeout 3000 ./check $pid --tier $tier > /tmp/try-$id-$pid.out 2>&1; rc=$?
 git -C "$repo" checkout -- .
 echo "$id on $pid: exit=$rc; $(grep -c '^VIOLATION' /tmp/try-$id-$pid.out) violation lines; $(grep '^VIOLATION' /tmp/try-$id-$pid.out | head -1)"
 [ -n "$(git -C "$repo" status --short)" ] && echo "WARNING: $repo not clean"
+[ -n "$own" ] && { git -C /repo worktree remove --force "$repo" 2>/dev/null; rm -rf "$repo"; }
+true
